@@ -194,6 +194,13 @@ int main(int argc, char** argv) {
             if (sched == "pre1") { vs::S.strat = vs::PLAN; vs::S.plan = plans[r]; }
             else if (sched == "pct") { vs::S.strat = vs::PCT; vs::S.rng.seed(seed * 7919 + sc * 131 + r); for (int i = 0; i < nth; i++) vs::S.prio[i] = (int)(vs::S.rng() % 1000); vs::S.change_points.clear(); for (int i = 0; i < 2; i++) vs::S.change_points.push_back(1 + vs::S.rng() % 150); }
             else { vs::S.strat = vs::RANDOM; vs::S.rng.seed(seed * 7919 + sc * 131 + r); vs::S.switch_pct = 10 + (int)(vs::S.rng() % 50); }
+            if (sched == "free") {
+                // real parallel threads, no scheduler: hardware interleavings (x86-TSO); only call / return order numbers are recorded,
+                // taken before the call and after the return, which can only widen the intervals
+                std::atomic<int> go{0}; std::vector<std::thread> th;
+                for (long t = 0; t < nth; t++) th.emplace_back([&, t] { go++; while (go.load() < nth) { _mm_pause(); } for (volatile int d = (int)(rng() % 200); d > 0; d--) {} bodies[t](); });
+                for (auto& x : th) x.join(); vs::S.steps = 0;
+            } else
             vs::run(bodies, (int)(vs::S.rng() % nth));
             if (sched == "pre1" && plans[r].size() > (std::size_t)nth) { int a = plans[r][0].first; long k = plans[r][0].second; if (vs::S.points[a] <= k || vs::S.pi == 0) { thread_len_known[a] = true; thread_len[a] = vs::S.points[a]; } }
             long steps = vs::S.steps;
